@@ -31,7 +31,11 @@ echo "patched=$patched" >> $log
 (cd $seed/demo && find . -type f) | while read f; do rm -f "$wt/$f"; done
 echo "== existing tests" >> $log
 pk="./core/... ./blockchain/... ./mempool/... ./dpos/state/... ./cr/... ./database/... ./test/unit/... ./crypto/... ./auxpow/... ./pow/... ./common/... ./utils/ ./utils/gpath/... ./elanet/bloom/... ./elanet/peer/... ./p2p/msg/... ./p2p/server/... ./p2p/addrmgr/... ./wallet/... ./account/... ./servers/... ./errors/... ./events/..."
-go test -vet=off -count=1 -p 4 -timeout 20m $pk 2>&1 | grep -E "^(ok|FAIL|--- FAIL|panic)" > $out/tests.txt
+# packages touched by the patch that are not in the default list (slow ones are only run when touched)
+for extra in dpos/manager dpos/p2p elanet/netsync elanet/routes p2p/peer; do
+  if grep -q "^diff --git a/$extra/" $seed/patch.diff; then pk="$pk ./$extra/..."; fi
+done
+go test -vet=off -count=1 -p 4 -timeout 30m $pk 2>&1 | grep -E "^(ok|FAIL|--- FAIL|panic)" > $out/tests.txt
 fails=$(grep -E "^(--- FAIL|FAIL|panic)" $out/tests.txt | grep -v "TestCheckTimeOfReword" | grep -vE "^FAIL$" )
 # retry failing packages once, serially (timing flakes under load)
 tests=pass
